@@ -186,6 +186,9 @@ def check_one(case, ctx, files=True):
                     same('roundtrip/cxt-file', ctx.call('fromfile(cxt)', q, concepts.Context.fromfile, path, 'cxt', enc))
                     same('roundtrip/load-cxt', ctx.call('load(cxt)', q, concepts.load, path, enc))
                     same('roundtrip/load_cxt', ctx.call('load_cxt', q, concepts.load_cxt, path, enc))
+                    d = ctx.call('Definition.fromfile(cxt)', q, concepts.Definition.fromfile, path, 'cxt', enc)
+                    ctx.check((d.objects, d.properties, d.bools) == triple and d.tostring('cxt') == text,
+                              'roundtrip/definition-fromfile-cxt', q, lambda: f'Definition.fromfile(cxt) gives {tuple(d)!r}')
                     with open(path, encoding=enc) as fh:
                         same_triple('reader/cxt-file', ctx.call('read_cxt(file)', q, tf.read_cxt, fh.read()))
             elif f == 'csv':
@@ -226,6 +229,9 @@ def check_one(case, ctx, files=True):
                     same('roundtrip/csv-file', ctx.call('fromfile(csv)', q,
                                                         lambda: concepts.Context.fromfile(path, 'csv', enc, **load_kw)))
                     same('roundtrip/load_csv', ctx.call('load_csv', q, concepts.load_csv, path, dialect, enc))
+                    d = ctx.call('Definition.fromfile(csv)', q, lambda: concepts.Definition.fromfile(path, 'csv', enc, **load_kw))
+                    ctx.check((d.objects, d.properties, d.bools) == triple, 'roundtrip/definition-fromfile-csv', q,
+                              lambda: f'Definition.fromfile(csv) gives {tuple(d)!r}')
                     if dialect == 'excel':
                         same('roundtrip/load-csv', ctx.call('load(csv)', q, concepts.load, path, enc))
                     with open(path, encoding=enc, newline='') as fh:
